@@ -276,6 +276,9 @@ Definition chk (c : schema * (list esum * list esum * list str * spec * list str
   strs_eqb (object_fields s) ob && strs_eqb (sub_fields s) su && str_eqb (default_field s) df.
 """
 
+# every case carries its type: a shard whose first case has only empty lists would not type-check otherwise
+TYPED_A = "(%s : schema * (list esum * list esum * list str * spec * list str * list str * str))"
+
 DEFS_B = """
 Definition chk (c : schema * item * eres json) : bool :=
   let '(s, t, expected) := c in
@@ -546,7 +549,7 @@ def correspond(model_ok, res):
             res.failures.append(({"schema": snapshot, "why": "the analyzer modified the index description"}, None))
         if opts != {"default_field": df, "not_analyzed_fields": na, "nested_fields": ne, "object_fields": ob}:
             res.failures.append(({"schema": snapshot, "why": "query_builder_options differs from its parts"}, None))
-        cases_a.append("(%s, (%s, %s, %s, %s, %s, %s, %s))" % (
+        cases_a.append(TYPED_A % "(%s, (%s, %s, %s, %s, %s, %s, %s))" % (
             gs, lib.g_list(ef), lib.g_list(et), g_strs(na), E.g_spec(ne), g_strs(ob), g_strs(su), lib.g_str(df)))
         payload_a.append({"schema": snapshot, "options": repr(opts)})
         dist["layout"]["current" if schema.get("mappings", {}).get("properties") else "legacy"] += 1
@@ -633,7 +636,7 @@ def correspond(model_ok, res):
     canary_b = ("(mkSchema None (mkMappings None []), Term KWord meta0 [120]%N, "
                 "ROk (JObj [([116;101;114;109]%N, JObj [])]))")
     try:
-        bad_a = lib.eval_cases("C19a", IMPORTS, DEFS_A, cases_a + [canary_a], "chk", shard=40)
+        bad_a = lib.eval_cases("C19a", IMPORTS, DEFS_A, cases_a + [TYPED_A % canary_a], "chk", shard=40)
         bad_b = lib.eval_cases("C19b", IMPORTS, DEFS_B, cases_b + [canary_b], "chk", shard=60)
     except Exception as e:  # noqa
         res.model_error = str(e)[-3000:]
